@@ -1,7 +1,7 @@
 #!/usr/bin/env python3
 """Bounded exploration of a harness module: builds the formula over K scheduling steps, discharges the
 queries (violation / deadlock / bound sufficiency / witnesses) with z3, replays counterexamples concretely."""
-import sys, os, time, json, select, zlib, traceback, resource
+import sys, os, time, json, select, zlib, traceback, resource, re
 import z3
 from vals import *
 import vals
@@ -178,7 +178,17 @@ class Exploration:
         viol = [(g, m_) for m_, (g, k) in e.checks.items() if k != 'limit' and g is not False]
         lim = [(g, m_) for m_, (g, k) in e.checks.items() if k == 'limit' and g is not False]
         qs = []
-        qs.append(dict(name='violation', cond=z3.Or([gz(g) for g, _ in viol]) if viol else False, expect='unsat', sites=len(viol)))
+        kp = s.cfg.get('known_patterns') or []
+        kn = [(g, m_) for g, m_ in viol if any(re.search(p_, m_) for p_ in kp)]
+        if kn:
+            # a recorded known finding: reported by its own query; every OTHER violation must be unreachable in executions where
+            # the known one does not occur (executions that contain it are already faulty)
+            viol = [(g, m_) for g, m_ in viol if not any(re.search(p_, m_) for p_ in kp)]
+            kcond = z3.Or([gz(g) for g, _ in kn])
+            qs.append(dict(name='known-finding', cond=kcond, expect='any', sites=len(kn)))
+            qs.append(dict(name='violation', cond=z3.And(z3.Or([gz(g) for g, _ in viol]), z3.Not(kcond)) if viol else False, expect='unsat', sites=len(viol)))
+        else:
+            qs.append(dict(name='violation', cond=z3.Or([gz(g) for g, _ in viol]) if viol else False, expect='unsat', sites=len(viol)))
         if lim: qs.append(dict(name='engine-limit', cond=z3.Or([gz(g) for g, _ in lim]), expect='unsat', sites=len(lim)))
         if s.NT:
             qs.append(dict(name='deadlock', cond=gand(s.quiescent, gnot(s.alldone)), expect='unsat'))
@@ -265,6 +275,8 @@ def run_harness(ll_path, cfg, verbose=False, jobs=4, timeout_s=600):
             ent['reason'] = r.get('reason'); verdict = 'inconclusive' if verdict == 'pass' else verdict
         elif q['name'] == 'violation' and r['r'] == 'sat':
             verdict = 'violation'; res['cex'] = dict(kind='violation', schedule=r['schedule'], inputs=r['inputs'], violated=r['violated'])
+        elif q['name'] == 'known-finding':
+            if r['r'] == 'sat': res['known'] = dict(kind='violation', schedule=r['schedule'], inputs=r['inputs'], violated=[m_ for m_ in r['violated'] if any(re.search(p_, m_) for p_ in cfg.get('known_patterns', []))])
         elif q['name'] == 'deadlock' and r['r'] == 'sat':
             if verdict != 'violation':
                 verdict = 'violation'; res['cex'] = dict(kind='deadlock', schedule=r['schedule'], inputs=r['inputs'], violated=['deadlock / lost wake-up: quiescent with unfinished threads'], ctrl=r.get('ctrl'))
@@ -286,6 +298,9 @@ def run_harness(ll_path, cfg, verbose=False, jobs=4, timeout_s=600):
             res['replay'] = replay(ll_path, cfg, res['cex'])
         except Exception as ex:
             res['replay'] = dict(confirmed=False, error=repr(ex))
+    if res.get('known'):
+        try: res['known_replay'] = replay(ll_path, cfg, res['known'])
+        except Exception as ex: res['known_replay'] = dict(confirmed=False, error=repr(ex))
     res['wall_s'] = time.time() - t0
     return res
 
